@@ -467,4 +467,188 @@ theorem member_unit (h : GzHeader) (wf : h.WF) (cs : List Bytes) (last : Bytes)
   rw [List.append_nil] at this
   exact this
 
+/-! ### damaged streams -/
+
+theorem gfailed_stop (e : Term) (r : Bytes) :
+    (gzip1 S).run r (.failed e) = (.failed e, [], r) :=
+  run_stopped (gzip1 S) r (.failed e) (by intro hc; cases hc)
+
+theorem okNext_ge3 (i : Nat) (ok : Bool) (b : UInt8) (h : 3 ≤ i) : okNext i ok b = ok := by
+  obtain ⟨j, rfl⟩ : ∃ j, i = j + 3 := ⟨i - 3, by omega⟩
+  rfl
+
+/-- once the magic/method bytes were wrong, the rest of the ten bytes is read and then the
+header is rejected -/
+theorem run_fixed_bad (i : Nat) (flg : UInt8) (hc : UInt32) (g r : Bytes) (h3 : 3 ≤ i) (h9 : i ≤ 9)
+    (hg : i + g.length = 10) :
+    (gzip1 S).run (g ++ r) (.fixed i false flg hc) = (.failed errCorrupt, [], r) := by
+  induction g generalizing i flg hc with
+  | nil => simp at hg; omega
+  | cons b g ih =>
+    by_cases hi : i < 9
+    · rw [List.cons_append, grun_silent S b _ (.fixed i false flg hc)
+        (.fixed (i + 1) false (if i = 3 then b else flg) (S.crcUpd hc b)) rfl
+        (by simp [gstep, hi, okNext_ge3 i false b h3])]
+      exact ih (i + 1) _ _ (by omega) (by omega) (by simp at hg; omega)
+    · have h9' : i = 9 := by omega
+      subst h9'
+      have hgn : g = [] := by
+        have : g.length = 0 := by simp at hg; omega
+        exact List.eq_nil_of_length_eq_zero this
+      subst hgn
+      rw [List.cons_append, List.nil_append, grun_silent S b r (.fixed 9 false flg hc)
+        (.failed errCorrupt) rfl (by simp [gstep, okNext])]
+      exact gfailed_stop S _ r
+
+/-- ten bytes that are not `1f 8b 08 …`: `gzip.ErrHeader`, nothing delivered -/
+theorem run_bad_magic (b0 b1 b2 b3 b4 b5 b6 b7 b8 b9 : UInt8) (r : Bytes)
+    (h : ¬(b0 = 0x1f ∧ b1 = 0x8b ∧ b2 = 8)) :
+    (gzip1 S).run (b0 :: b1 :: b2 :: b3 :: b4 :: b5 :: b6 :: b7 :: b8 :: b9 :: r) gInit =
+      (.failed errCorrupt, [], r) := by
+  have hok : okNext 2 (okNext 1 (okNext 0 true b0) b1) b2 = false := by
+    simp only [okNext]
+    by_cases h0 : b0 = 0x1f
+    · by_cases h1 : b1 = 0x8b
+      · by_cases h2 : b2 = 8
+        · exact absurd ⟨h0, h1, h2⟩ h
+        · simp [h2]
+      · simp [h1]
+    · simp [h0]
+  simp only [gInit]
+  rw [grun_silent S b0 _ (.fixed 0 true 0 0) (.fixed 1 (okNext 0 true b0) 0 (S.crcUpd 0 b0)) rfl rfl,
+    grun_silent S b1 _ (.fixed 1 _ 0 _) (.fixed 2 (okNext 1 (okNext 0 true b0) b1) 0 _) rfl rfl,
+    grun_silent S b2 _ (.fixed 2 _ 0 _)
+      (.fixed 3 (okNext 2 (okNext 1 (okNext 0 true b0) b1) b2) 0 _) rfl rfl, hok]
+  exact run_fixed_bad S 3 0 _ [b3, b4, b5, b6, b7, b8, b9] r (by omega) (by omega) rfl
+
+/-- up to nine bytes: the reader is still collecting the fixed header -/
+theorem run_fixed_partial (i : Nat) (ok : Bool) (flg : UInt8) (hc : UInt32) (g : Bytes)
+    (hg : i + g.length ≤ 9) :
+    ∃ ok' flg' hc', (gzip1 S).run g (.fixed i ok flg hc) = (.fixed (i + g.length) ok' flg' hc', [], []) := by
+  induction g generalizing i ok flg hc with
+  | nil => exact ⟨ok, flg, hc, rfl⟩
+  | cons b g ih =>
+    have hi : i < 9 := by simp at hg; omega
+    obtain ⟨ok', flg', hc', h⟩ := ih (i + 1) (okNext i ok b) (if i = 3 then b else flg) (S.crcUpd hc b)
+      (by simp at hg; omega)
+    refine ⟨ok', flg', hc', ?_⟩
+    rw [grun_silent S b g (.fixed i ok flg hc)
+      (.fixed (i + 1) (okNext i ok b) (if i = 3 then b else flg) (S.crcUpd hc b)) rfl
+      (by simp [gstep, hi]), h]
+    simp [Nat.add_assoc, Nat.add_comm 1]
+
+/-- the eight trailer bytes do not say what was computed: `gzip.ErrChecksum` -/
+theorem run_trailer_bad (crc : UInt32) (size : Nat) (t0 t1 t2 t3 t4 t5 t6 t7 : UInt8) (r : Bytes)
+    (h : [t0, t1, t2, t3, t4, t5, t6, t7] ≠ le32 crc ++ le32 (UInt32.ofNat size)) :
+    (gzip1 S).run (t0 :: t1 :: t2 :: t3 :: t4 :: t5 :: t6 :: t7 :: r) (.trailer crc size []) =
+      (.failed errCorrupt, [], r) := by
+  rw [grun_silent S _ _ _ _ rfl rfl, grun_silent S _ _ _ _ rfl rfl, grun_silent S _ _ _ _ rfl rfl,
+    grun_silent S _ _ _ _ rfl rfl, grun_silent S _ _ _ _ rfl rfl, grun_silent S _ _ _ _ rfl rfl,
+    grun_silent S _ _ _ _ rfl rfl,
+    grun_silent S _ _ (.trailer crc size _) (.failed errCorrupt) rfl (by
+      simp only [gstep, List.nil_append, List.cons_append, List.length_cons, List.length_nil]
+      simp [h])]
+  exact gfailed_stop S _ r
+
+/-- FHCRC present and wrong: `gzip.ErrHeader` -/
+theorem run_hcrc_bad (hc : UInt32) (x y : UInt8) (r : Bytes) (h : [x, y] ≠ (le32 hc).take 2) :
+    (gzip1 S).run (x :: y :: r) (.hcrc1 hc) = (.failed errCorrupt, [], r) := by
+  rw [grun_silent S _ _ _ _ rfl rfl,
+    grun_silent S _ _ (.hcrc2 hc x) (.failed errCorrupt) rfl (by simp [gstep, h])]
+  exact gfailed_stop S _ r
+
+/-- a header whose FHCRC field is wrong -/
+theorem run_header_bad_hcrc (h : GzHeader) (wf : h.WF) (hh : h.hcrc = true) (x y : UInt8) (r : Bytes)
+    (hne : [x, y] ≠ (le32 (S.crc 0 h.covered)).take 2) :
+    (gzip1 S).run (h.covered ++ x :: y :: r) gInit = (.failed errCorrupt, [], r) := by
+  simp only [GzHeader.covered, List.append_assoc]
+  rw [run_fixed, run_optExtra S h wf, run_optName S h wf, run_optComment S h wf]
+  simp only [← crc_append]
+  have : h.flg &&& 2 ≠ 0 := by rw [GzHeader.flg, flg_hcrc, hh]
+  rw [afterComment, if_pos this]
+  simp only [GzHeader.covered] at hne
+  exact run_hcrc_bad S _ x y r hne
+
+/-! DEFLATE level -/
+
+theorem dfailed_stop (e : Term) (r : Bytes) : deflate.run r (.failed e) = (.failed e, [], r) :=
+  run_stopped deflate r (.failed e) (by intro hc; cases hc)
+
+/-- block type 11 -/
+theorem run_reserved_type (b : UInt8) (r : Bytes) (h : (b >>> 1) &&& 3 = 3) :
+    deflate.run (b :: r) .hdr = (.failed errCorrupt, [], r) := by
+  rw [drun_silent b r .hdr (.failed errCorrupt) rfl (by simp [dstep, h])]
+  exact dfailed_stop _ r
+
+/-- NLEN is not the complement of LEN -/
+theorem run_bad_nlen (b l0 l1 n0 n1 : UInt8) (r : Bytes) (hb : (b >>> 1) &&& 3 = 0)
+    (h : ¬(l0 ^^^ n0 = 255 ∧ l1 ^^^ n1 = 255)) :
+    deflate.run (b :: l0 :: l1 :: n0 :: n1 :: r) .hdr = (.failed errCorrupt, [], r) := by
+  rw [drun_silent b _ .hdr (.len1 (b &&& 1 == 1)) rfl (by simp [dstep, hb]),
+    drun_silent _ _ (.len1 _) (.len2 _ _) rfl rfl, drun_silent _ _ (.len2 _ _) (.len3 _ _ _) rfl rfl,
+    drun_silent _ _ (.len3 _ _ _) (.len4 _ _ _ _) rfl rfl,
+    drun_silent n1 r (.len4 _ l0 l1 n0) (.failed errCorrupt) rfl (by simp [dstep, h])]
+  exact dfailed_stop _ r
+
+/-- a DEFLATE error inside a member is the member's error; what was released before it went
+out -/
+theorem run_body_failed (w : Bytes) (d : DSt) (crc : UInt32) (size : Nat) (o rest : Bytes) (e : Term)
+    (hd : dphase d = .working) (h : deflate.run w d = (.failed e, o, rest)) :
+    (gzip1 S).run w (.body d crc size) = (.failed e, o, rest) := by
+  induction w generalizing d crc size o with
+  | nil =>
+    have h1 : d = .failed e := congrArg Prod.fst h
+    subst h1
+    simp [dphase] at hd
+  | cons b w ih =>
+    have hp : (gzip1 S).phase (.body d crc size) = .working := rfl
+    have hdw : deflate.phase d = .working := hd
+    rw [run_cons_working deflate b w d hdw] at h
+    generalize hdb : deflate.step d b = r at h
+    have hdb' : dstep d b = r := hdb
+    obtain ⟨d1, o1⟩ := r
+    have h1 : (deflate.run w d1).1 = .failed e := congrArg Prod.fst h
+    have h2 : optList o1 ++ (deflate.run w d1).2.1 = o := congrArg (fun x => x.2.1) h
+    have h3 : (deflate.run w d1).2.2 = rest := congrArg (fun x => x.2.2) h
+    cases hph : dphase d1 with
+    | done =>
+      have hnw : deflate.phase d1 ≠ .working := by
+        intro hc
+        rw [show deflate.phase d1 = dphase d1 from rfl, hph] at hc
+        cases hc
+      rw [run_stopped deflate w d1 hnw] at h1
+      have h1' : d1 = .failed e := h1
+      subst h1'
+      cases hph
+    | failed e' =>
+      have hnw : deflate.phase d1 ≠ .working := by
+        intro hc
+        rw [show deflate.phase d1 = dphase d1 from rfl, hph] at hc
+        cases hc
+      rw [run_stopped deflate w d1 hnw] at h1 h2 h3
+      have h1' : d1 = .failed e := h1
+      subst h1'
+      have he : e' = e := by
+        have : Phase.failed e = Phase.failed e' := hph
+        cases this; rfl
+      subst he
+      have hs : gstep S (.body d crc size) b = (.failed e', o1) := by
+        simp only [gstep, hdb', hph]
+      have hw : w = rest := h3
+      have ho : optList o1 ++ [] = o := h2
+      rw [run_step (gzip1 S) b w _ _ _ hp hs, gfailed_stop S e' w, ← ho, hw]
+    | working =>
+      have hs : gstep S (.body d crc size) b =
+          (.body d1 (S.crc crc (optList o1)) (size + (optList o1).length), o1) := by
+        simp only [gstep, hdb', hph]
+        cases o1 <;> rfl
+      have hrun : deflate.run w d1 = (.failed e, (deflate.run w d1).2.1, rest) := by
+        apply Prod.ext
+        · exact h1
+        · apply Prod.ext
+          · rfl
+          · exact h3
+      have := ih d1 (S.crc crc (optList o1)) (size + (optList o1).length) _ hph hrun
+      rw [run_step (gzip1 S) b w _ _ _ hp hs, this, ← h2]
+
 end Req.Compress.Fmt
